@@ -85,6 +85,22 @@ theorem pivsign_eq_sign {m n : Nat} (h : n ≤ m) (A : Mat ℝ m n) (σ : Equiv.
   rw [this]; exact h2
 
 
+
+/-- ... and equals the executable sign `pivSignOf` (product over position pairs of `±1`) that the
+driver evaluates on the implementation's pivot vector -/
+theorem pivsign_eq_pivSignOf {m n : Nat} (h : n ≤ m) (A : Mat ℝ m n) :
+    (factor h A).pivsign = pivSignOf (factor h A).piv := by
+  obtain ⟨σ, h1, h2, _⟩ := factor_matrix h A
+  rw [h2, pivSignOf_eq_sign _ σ h1]
+
+/-- pivot search (`LUDecomposition.h:170-177`): the chosen row is at or below the diagonal, carries
+the largest magnitude of the column from the diagonal down, and is the first such row (strict `>`) -/
+theorem pivot_search_spec {m n : Nat} (W : Mat ℝ m n) (k : Fin n) (kr : Fin m) :
+    kr.val ≤ (findPivot W k kr).val ∧
+    (∀ i : Fin m, kr.val ≤ i.val → |W.get i k| ≤ |W.get (findPivot W k kr) k|) ∧
+    (∀ i : Fin m, kr.val ≤ i.val → i.val < (findPivot W k kr).val → |W.get i k| < |W.get (findPivot W k kr) k|) :=
+  ⟨(findPivot_spec W k kr).1, (findPivot_spec W k kr).2, findPivot_first W k kr⟩
+
 /-- partial pivoting: every stored multiplier (entry of `L` below the diagonal) has magnitude `≤ 1` -/
 theorem multipliers_le_one {m n : Nat} (h : n ≤ m) (A : Mat ℝ m n) (i : Fin m) (j : Fin n) :
     |(getL (factor h A)).get i j| ≤ 1 := by
@@ -228,15 +244,16 @@ theorem solveVec_wrong_length_raises {m n mb : Nat} (s : State ℝ m n) (b : Vec
 
 /-- **A·inv(A) = I** whenever `MatrixTools::inv` returns; the indicator is the smallest pivot -/
 theorem inv_spec {n : Nat} (A : Mat ℝ n n) (d : ℝ) (O : Mat ℝ n n) (hi : inv A = .ok (d, O)) :
-    matMul A O = identity n ∧ toMatrix A * toMatrix O = 1 := by
+    matMul A O = identity n ∧ toMatrix A * toMatrix O = 1 ∧ toMatrix O * toMatrix A = 1 := by
   unfold inv at hi
   rw [if_neg (by simp), construct_square] at hi
   simp only at hi
   have h1 := (solve_ok A (identity n) d O hi).1
-  refine ⟨h1, ?_⟩
-  rw [← toMatrix_matMul, h1]
-  ext i j
-  simp [identity, Matrix.one_apply, Fin.ext_iff]
+  have h2 : toMatrix A * toMatrix O = 1 := by
+    rw [← toMatrix_matMul, h1]
+    ext i j
+    simp [identity, Matrix.one_apply, Fin.ext_iff]
+  exact ⟨h1, h2, mul_eq_one_comm.mp h2⟩
 
 /-- `MatrixTools::inv` refuses non-square input -/
 theorem inv_nonsquare_raises {m n : Nat} (hmn : m ≠ n) (A : Mat ℝ m n) : inv A = .error .dimension := by
